@@ -643,6 +643,17 @@ def c12(ctx):
                 seen.setdefault(hashlib.sha256(f.read()).hexdigest(), "stale temp file of an earlier failed run present")
         else:
             viol.add("valid-compress-failed", {"source": sname, "chunker": cname, "compression": pname, "history": "stale temp file", "stderr": r.stderr.decode()[-200:]})
+        # history of the output path: --force-create over an existing, longer file
+        arc = os.path.join(d, "a-over.cba")
+        with open(arc, "wb") as f:
+            f.write(b"an older, much longer archive " * 8192)
+        r = sh([bita, "compress", "-f", "--buffered-chunks", "2"] + cargs + pargs + ["-i", src, arc])
+        n += 1
+        if r.returncode == 0:
+            with open(arc, "rb") as f:
+                seen.setdefault(hashlib.sha256(f.read()).hexdigest(), "--force-create over an existing longer file")
+        else:
+            viol.add("valid-compress-failed", {"source": sname, "chunker": cname, "compression": pname, "history": "-f over existing file", "stderr": r.stderr.decode()[-200:]})
         if len(seen) > 1:
             viol.add("archive-differs-between-runs", {"source": sname, "chunker": cname, "compression": pname, "variants": list(seen.values())})
         return n, (sname, cname, pname), list(seen)[:1]
@@ -655,7 +666,7 @@ def c12(ctx):
                 samples.append({"source": key[0], "chunker": key[1], "compression": key[2], "archive_sha256": h})
     shutil.rmtree(root, ignore_errors=True)
     cov = {"evaluations": runs, "distinct_nontrivial": len(distinct), "groups": len(groups), "exhaustive": True, "samples": samples,
-           "rule": "real binary on the real multi-thread runtime: for each of 24 (source, chunker, compression) groups the archive from buffered-chunks {1,2,3,8,64} x input {file, pipe} x 3 (thorough 6) repeated runs with TOKIO_WORKER_THREADS rotating over {default, 1, 2} (thorough: every 6th run with each write(2) delayed by 300 us through strace fault injection) and one run started with a stale temp file of an earlier failed run in place, must be one byte string; non-trivial = distinct (group, archive) pairs"}
+           "rule": "real binary on the real multi-thread runtime: for each of 24 (source, chunker, compression) groups the archive from buffered-chunks {1,2,3,8,64} x input {file, pipe} x 3 (thorough 6) repeated runs with TOKIO_WORKER_THREADS rotating over {default, 1, 2} (thorough: every 6th run with each write(2) delayed by 300 us through strace fault injection) one run started with a stale temp file of an earlier failed run in place and one --force-create run over an existing longer file, must be one byte string; non-trivial = distinct (group, archive) pairs"}
     return result(ctx["pid"], "exploration", cov, viol, t0, ["A5: repeated real runs sample the OS scheduler; the exhaustive schedule coverage is the in-process gate explorer's"])
 
 
@@ -674,19 +685,21 @@ def c13(ctx):
         cases.append((("seeded-" + seedw, "ABCDAB", ""), "new-file", seedw))
         cases.append((("seeded-inplace-" + seedw, "ABCDAB", "-B-"), "in-place", seedw))
     cases.append((("force-over-existing", "ABC", "ABXXXXXXXXXX"), "force", None))
+    # every case once with full 64-byte chunk hashes and once with hashes truncated to 16 bytes
+    cases = [c + (hl,) for c in cases for hl in (64, 16)]
     distinct = set()
     samples = []
     cov = {"writes_observed": 0, "in_place_locations": 0}
 
     def one(i):
-        (name, s, p), kind, seedw = cases[i]
+        (name, s, p), kind, seedw, hl = cases[i]
         d = os.path.join(root, f"c{i}")
         os.makedirs(d)
         source, prior = words(s), words(p, 3)
         src, arc, out = os.path.join(d, "src.bin"), os.path.join(d, "a.cba"), os.path.join(d, "out.bin")
         with open(src, "wb") as f:
             f.write(source)
-        r = sh([bita, "compress", "--fixed-size", "4B", "--compression", "none", "-i", src, arc])
+        r = sh([bita, "compress", "--fixed-size", "4B", "--compression", "none", "--hash-length", str(hl), "-i", src, arc])
         if r.returncode != 0:
             raise RuntimeError("compress failed")
         flags = []
@@ -711,7 +724,7 @@ def c13(ctx):
             flags = flags + ["--seed-output"] if "--seed-output" not in flags else flags
         r = sh(["strace", "-f", "-qq", "-s", "100000", "-P", out, "-e", "trace=lseek,write,read,pwrite64,pread64,ftruncate,truncate", "-o", log,
                 bita, "clone"] + flags + [arc, out])
-        detail = {"case": name, "source": s, "prior": p, "kind": kind, "seed": seedw}
+        detail = {"case": name, "source": s, "prior": p, "kind": kind, "seed": seedw, "hash_length": hl}
         if r.returncode != 0:
             detail["stderr"] = r.stderr.decode()[-300:]
             viol.add("valid-clone-failed", detail)
